@@ -50,7 +50,7 @@ var allScopes = []string{
 	tmplgen.ScopeRenderOtherFormat, tmplgen.ScopeRegexQuote, tmplgen.ScopeTemplateQuote, tmplgen.ScopeTemplateHole,
 	tmplgen.ScopeCSSCommentQuote, tmplgen.ScopeEventAttr, tmplgen.ScopeStyleAttr, tmplgen.ScopeTagSpace, tmplgen.ScopeDoubleEscaped,
 	tmplgen.ScopeEscapedBackslash, tmplgen.ScopeUnquotedEmpty, tmplgen.ScopeJSCommentHole, tmplgen.ScopeMinusAdjacent,
-	tmplgen.ScopeScriptTypeJS, tmplgen.ScopeMDBareURL, tmplgen.ScopeMDAutolink, tmplgen.ScopeMDURLMacro, tmplgen.ScopeMDEmphasisAdj, tmplgen.ScopeCommentQuote,
+	tmplgen.ScopeScriptTypeJS, tmplgen.ScopeMDBareURL, tmplgen.ScopeMDAutolink, tmplgen.ScopeMDURLMacro, tmplgen.ScopeMDEmphasisAdj, tmplgen.ScopeCommentQuote, tmplgen.ScopeImportMap,
 }
 
 func (prop) Drive(d *core.Driver) error {
@@ -243,11 +243,14 @@ func (prop) Work(c core.Case) core.Result {
 		return res
 	}
 	sk0, hints := skeletonOf(format, out0, allMarks, nil)
+	benignBroken := ""
 	if sk0.errs > 0 {
-		res.Status = core.Skip
+		// Either the generator wrote invalid code or the benign value itself was shown in
+		// the wrong context. The comparison still goes on (a hostile value that repairs or
+		// changes the broken structure is a violation); if nothing is found the case is
+		// reported as inconclusive, never silently dropped.
 		res.Counts["benign_lex_errors"]++
-		res.Detail = "the benign render does not tokenize cleanly (generator defect)\n" + describeDoc(doc) + "\nbenign output: " + out0
-		return res
+		benignBroken = "the benign render does not tokenize cleanly (generator defect or value shown in the wrong context)\n" + describeDoc(doc) + "\nbenign output: " + core.Truncate(out0, 1500)
 	}
 	res.Counts["documents"]++
 	res.Counts["format_"+format]++
@@ -313,6 +316,10 @@ func (prop) Work(c core.Case) core.Result {
 				}
 			}
 		}
+	}
+	if benignBroken != "" {
+		res.Status = core.Inconclusive
+		res.Detail = benignBroken
 	}
 	for s := range sigs {
 		res.Sigs = append(res.Sigs, s)
